@@ -252,7 +252,7 @@ pin_project_lite::pin_project! {
     }
 }
 
-unsafe impl<T: Send + ?Sized> Send for WriteInner<'_, T> {}
+unsafe impl<T: Send + Sync + ?Sized> Send for WriteInner<'_, T> {}
 unsafe impl<T: Sync + ?Sized> Sync for WriteInner<'_, T> {}
 
 impl<'x, T: ?Sized> Write<'x, T> {
@@ -360,7 +360,7 @@ pin_project_lite::pin_project! {
     }
 }
 
-unsafe impl<T: Send + ?Sized> Send for UpgradeInner<'_, T> {}
+unsafe impl<T: Send + Sync + ?Sized> Send for UpgradeInner<'_, T> {}
 unsafe impl<T: Sync + ?Sized> Sync for UpgradeInner<'_, T> {}
 
 impl<'x, T: ?Sized> Upgrade<'x, T> {
